@@ -71,7 +71,13 @@ type Server struct {
 
 // Serves the connection once we accepted it
 func (server *Server) serveConn(conn net.Conn) {
-	defer recover()
+	// a panic while serving one connection (TLS callbacks, connection state
+	// hook, HTTP/2 serve loop) must not take the whole process down
+	defer func() {
+		if r := recover(); r != nil {
+			server.logf("panic serving %s: %v", conn.RemoteAddr(), r)
+		}
+	}()
 	defer conn.Close()
 
 	hijackedConn := hack.NewHijackClientHelloConn(conn)
@@ -172,6 +178,25 @@ func withRequestTLS(next http.Handler) http.Handler {
 	})
 }
 
+// recoverConnState confines a panic of the user's ConnState hook to the
+// connection it was called for. net/http calls the hook for new connections
+// on the accept loop of the HTTP/1.1 server, where a panic would otherwise
+// terminate the process.
+func (server *Server) recoverConnState(hook func(net.Conn, http.ConnState)) func(net.Conn, http.ConnState) {
+	if hook == nil {
+		return nil
+	}
+	return func(c net.Conn, state http.ConnState) {
+		defer func() {
+			if r := recover(); r != nil {
+				server.logf("panic in ConnState hook (%s): %v", c.RemoteAddr(), r)
+				c.Close()
+			}
+		}()
+		hook(c, state)
+	}
+}
+
 func (server *Server) serveHTTP1() {
 	err := server.HTTPServer.Serve(server.http1ConnChannelListener)
 
@@ -213,6 +238,7 @@ func (server *Server) setupServe() {
 	// start HTTP/1.1 server
 	if server.http1ConnChannelListener == nil {
 		server.HTTPServer.Handler = withRequestTLS(server.HTTPServer.Handler)
+		server.HTTPServer.ConnState = server.recoverConnState(server.HTTPServer.ConnState)
 		server.http1ConnChannelListener = hack.NewChannelListener(server.ctx)
 		go server.serveHTTP1()
 	}
